@@ -18,16 +18,23 @@ def rand_bytes(rng, n):
     return bytes(rng.randrange(256) for _ in range(n))
 
 
+class Pool(list):
+    """A key pool; `mirror` is the prefix length of a mirrored pool (same suffixes under
+    several prefixes, values chosen by suffix, so that whole sub-tries are identical)."""
+
+    mirror = None
+
+
 def make_pool(rng, size=None, style=None):
     """A pool of keys with heavy prefix sharing, nibble-aligned and unaligned."""
     size = size or rng.choice(deep([3, 4, 5, 6, 8, 10, 12, 16, 24, 40], [3, 4, 6, 8, 12, 16, 24, 40, 64, 96]))
-    style = style or rng.choice(["short", "short", "short", "mixed", "mixed", "fixed32", "fixed20", "deep", "long"])
+    style = style or rng.choice(["short", "short", "short", "mixed", "mixed", "fixed32", "fixed20", "deep", "long", "longvar", "mirror", "mirror"])
     alpha = rng.choice(ALPHABETS)
 
     def byte():
         return rng.randrange(256) if alpha is None else rng.choice(alpha)
 
-    pool = []
+    pool = Pool()
     seen = set()
 
     def add(k):
@@ -35,9 +42,39 @@ def make_pool(rng, size=None, style=None):
             seen.add(k)
             pool.append(k)
 
+    if style == "mirror":
+        plen = rng.choice([1, 1, 2])
+        prefixes = []
+        while len(prefixes) < rng.choice([2, 2, 3]):
+            p = bytes(byte() for _ in range(plen))
+            if p not in prefixes:
+                prefixes.append(p)
+        # suffixes with shared paths: a common stem, then last-nibble / last-byte variants
+        stem = bytes(byte() for _ in range(rng.choice([0, 1, 2, 3])))
+        suffixes = []
+        tries = 0
+        while len(suffixes) < rng.choice([2, 3, 4, 5]) and tries < 50:
+            tries += 1
+            r = rng.random()
+            if suffixes and r < 0.4:
+                b = bytearray(rng.choice(suffixes))
+                b[-1] = (b[-1] & 0xF0) | rng.randrange(16)
+                s = bytes(b)
+            elif suffixes and r < 0.6:
+                s = rng.choice(suffixes) + bytes([byte()])
+            else:
+                s = stem + bytes(byte() for _ in range(rng.choice([1, 1, 2])))
+            if s not in suffixes:
+                suffixes.append(s)
+        for p in prefixes:
+            for s in suffixes:
+                add(p + s)
+        pool.mirror = plen
+        return pool
+
     if style in ("fixed32", "fixed20", "long"):
         # "long": keys of 57..70 bytes, whose hex-prefix paths need RLP's long-string form
-        n = 32 if style == "fixed32" else (20 if style == "fixed20" else rng.choice([57, 60, 64, 70]))
+        n = 32 if style == "fixed32" else (20 if style == "fixed20" else rng.choice([57, 60, 64, 70, 129, 130, 200]))
         base = bytes(byte() for _ in range(n))
         add(base)
         tries = 0
@@ -55,6 +92,24 @@ def make_pool(rng, size=None, style=None):
                 for j in range(pos + 1, n):
                     src[j] = byte()
             add(bytes(src))
+    elif style == "longvar":
+        # very long keys (more than 256 nibbles) that are prefixes / extensions /
+        # last-nibble neighbours of each other
+        base = bytes(byte() for _ in range(rng.choice([100, 128, 129, 130, 160])))
+        add(base)
+        tries = 0
+        while len(pool) < min(size, 12) and tries < 200:
+            tries += 1
+            k = rng.choice(pool)
+            r = rng.random()
+            if r < 0.4:
+                add(k + bytes(byte() for _ in range(rng.randint(1, 2))))
+            elif r < 0.6 and len(k) > 90:
+                add(k[: len(k) - rng.randint(1, 2)])
+            else:
+                b = bytearray(k)
+                b[-1] = (b[-1] & 0xF0) | rng.randrange(16) if rng.random() < 0.5 else rng.randrange(256)
+                add(bytes(b))
     else:
         maxlen = {"short": 3, "mixed": 5, "deep": 8}[style]
         if rng.random() < 0.35:
@@ -124,7 +179,7 @@ def probe_keys(rng, pool, extra=6):
     for k in pool:
         add(k)
     for k in pool:
-        for j in range(len(k)):
+        for j in range(len(k)) if len(k) <= 40 else list(range(0, 3)) + list(range(len(k) - 3, len(k))):
             add(k[:j])
         add(k + b"\x00")
         add(k + bytes([rng.randrange(256)]))
@@ -154,6 +209,7 @@ class HistoryGen:
         self.reopen = reopen
         self.lookups = lookups
         self.h = handle
+        self.p_hdl = 0.0
         self.present = {}
         self.batch_present = None
         # swarm: per-run operation weights
@@ -170,10 +226,14 @@ class HistoryGen:
         self.p_abort = r.choice([0.0, 0.2, 0.5]) if aborts else 0.0
         self.via_dict = r.random() < 0.5
         self.p_hashval = r.choice([0.0, 0.0, 0.0, 0.1, 0.3])
+        self.p_bcopy = r.choice([0.0, 0.0, 0.2])
+        self.p_hdl = r.choice([0.0, 0.0, 0.1, 0.3])
 
     def _cmd(self, d):
         if self.h is not None:
             d["h"] = self.h
+        if self.p_hdl and self.rng.random() < self.p_hdl:
+            d["hdl"] = 1
         return d
 
     def _via(self):
@@ -201,6 +261,10 @@ class HistoryGen:
             k = rng.choice(self.pool)
         if kind in ("set", "noop"):
             v = rng.choice(self.values)
+            plen = getattr(self.pool, "mirror", None)
+            if plen is not None and rng.random() < 0.9:
+                # the value depends on the suffix only: sub-tries under different prefixes coincide
+                v = self.values[sum(k[plen:]) % len(self.values)]
             present[k] = v
             c = self._cmd({"op": "set", "k": hx(k), "v": hx(v), "via": self._via(), "on": on})
             if rng.random() < self.p_hashval:
@@ -234,7 +298,7 @@ class HistoryGen:
                 out.append(self.mutation("live"))
                 self.lookups_after("live", out)
             elif r == "reopen":
-                out.append(self._cmd({"op": "reopen"}))
+                out.append(self._cmd({"op": "reopen", "held": int(rng.random() < 0.4)}))
                 self.lookups_after("live", out)
             else:
                 self.batch(out)
@@ -248,6 +312,8 @@ class HistoryGen:
         for _ in range(k):
             out.append(self.mutation("batch"))
             self.lookups_after("batch", out)
+            if rng.random() < self.p_bcopy:
+                out.append(self._cmd({"op": "bcopy"}))
         abort = rng.random() < self.p_abort if force is None else force
         if abort:
             out.append(self._cmd({"op": "babort", "exc": rng.choice(["E", "B"])}))
